@@ -333,7 +333,7 @@ example : printList 1 none (wordOpd ['a'])
     = [' ', 'a', ' ', ' ', ' ', 'A', 'N', 'D', ' ', 'b', ' ', 'O', 'R', ' ', ' ', '-', 'c', ' '] := by decide
 example : PlainWord ['b'] ∧ PlainWord ['c'] := ⟨⟨by simp, by decide, by decide⟩, ⟨by simp, by decide, by decide⟩⟩
 
-/-- **print/parse for the nested fragment** (`WFOpd`: plain words, double-quoted phrases without escapes — any characters but `"` and `\` — and parenthesised operand lists
+/-- **print/parse for the nested fragment** (`WFOpd`: plain words, double-quoted phrases without escapes — any characters but `"` and `\` —, either of them with a field prefix `name:` (the name a plain word), and parenthesised operand lists
     of well-formed operands, to any depth, each list with `+`/`-` markers, `AND `/`OR ` and any
     layout): the strict parser reads the printed text as the tree the printer's structure denotes —
     at every level the fold (`strictAst`, see `C16_listTree_is_fold`) of the operands' trees —
@@ -367,6 +367,14 @@ example :
 example : (phraseOpd ['a', ' ', '(', 'b']).text = ['"', 'a', ' ', '(', 'b', '"']
     ∧ WFOpd (phraseOpd ['a', ' ', '(', 'b']) :=
   ⟨by decide, .phrase _ (by simp [PhraseBody])⟩
+
+/-- `t:a` and `t:"a b"` are well-formed operands, read as literals with the field set -/
+example : (fieldWordOpd ['t'] ['a']).text = ['t', ':', 'a']
+    ∧ (fieldWordOpd ['t'] ['a']).leaf = .leaf (.literal (some ['t']) ['a'] .none 0 false)
+    ∧ WFOpd (fieldWordOpd ['t'] ['a'])
+    ∧ WFOpd (fieldPhraseOpd ['t'] ['a', ' ', 'b']) :=
+  ⟨by decide, rfl, .fieldWord _ _ ⟨by simp, by decide, by decide⟩ ⟨by simp, by decide, by decide⟩,
+    .fieldPhrase _ _ ⟨by simp, by decide, by decide⟩ (by simp [PhraseBody])⟩
 
 /-- `C16_print_parse_partial`: the documented forms parse to the documented trees -/
 theorem C16_print_parse_partial :
